@@ -64,7 +64,20 @@ Inductive producer :=
 | PMap (k : Z) (a : nat)          (* map(e->e+k) *)
 | PAccept (k : Z) (a : nat)       (* accept(e->e<k) *)
 | PTop (n a : nat)
-| PSkip (n a : nat).
+| PSkip (n a : nat)
+| PGuard (v : Z) (a : nat).       (* map(e->e+0%(e-v)): the identity whose closure FAILS on elements equal to v *)
+
+(* A failing element of a lazy list (its producer returns an error at that position: value/list.go passes
+   (value, error) items down the pipeline) is represented IN THE CONTENT by a poison value.  Failure is then a
+   property of the content: consumers that materialise (List.Eval) or iterate fail at the first poison element,
+   and List.Eval's failure path (`return err` before any field is written) is a step that changes nothing.
+   map(e->e+k), accept(e->e<k) with ordinary k, top and + keep a poison element poison at its position, exactly as
+   the iterator stages pass error items on (iterator.Map, Filter, Append); skip does NOT (iterator.Skip yields
+   the errors of skipped elements): skip over a failing list is outside the model. *)
+Definition poison : val := (-2000000000000000)%Z.
+Definition is_poison (e : val) : bool := (e <? -1000000000000000)%Z.
+Definition poisoned (xs : list val) : bool := existsb is_poison xs.
+Definition guard_elem (v e : val) : val := if Z.eqb e v then poison else e.
 
 Record lobj := mkO { o_items : slice; o_present : bool; o_iter : producer }.
 Definition dummy_obj : lobj := mkO nil_slice false (PNumbers 0).
@@ -84,6 +97,7 @@ Definition prod_content (arrs : arrays) (prev : list (list val)) (p : producer) 
   | PAccept k a => filter (fun e => Z.ltb e k) (nth a prev [])
   | PTop n a => firstn n (nth a prev [])
   | PSkip n a => skipn n (nth a prev [])
+  | PGuard v a => map (guard_elem v) (nth a prev [])
   end.
 
 (* iteration results of the objects 0..n-1 (producers only refer to older objects) *)
@@ -181,7 +195,8 @@ Inductive op :=
 | OSkip (n a : nat)
 | OForce (a c1 : nat)                       (* eval(), size(), [i], = : materialise *)
 | OWindows (n a : nat)                      (* combineN(n, w->w): one object per window *)
-| OMovWin (a c1 : nat).                     (* movingWindow(e->e): one object per window *)
+| OMovWin (a c1 : nat)                      (* movingWindow(e->e): one object per window *)
+| OGuard (v : Z) (a : nat).                 (* map(e->e+0%(e-v)): lazy, fails on elements equal to v *)
 
 Arguments OLit xs%Z c%nat.
 Arguments ONumbers n%nat.
@@ -197,6 +212,7 @@ Arguments OSkip n%nat a%nat.
 Arguments OForce a%nat c1%nat.
 Arguments OWindows n%nat a%nat.
 Arguments OMovWin a%nat c1%nat.
+Arguments OGuard v%Z a%nat.
 
 Definition lazy_add (h : heap) (p : producer) : heap := add_obj h (mkO nil_slice false p).
 
@@ -254,6 +270,7 @@ Definition step (h : heap) (o : op) : heap :=
       (* after the repair each window is a private copy (make + copy) of the ring buffer *)
       if a <? nobjs h then fold_left (fun hh w => add_fresh hh w 0) (windows_of n (icontent h a)) h else h
   | OMovWin a c1 => do_movwin h a c1
+  | OGuard v a => if a <? nobjs h then lazy_add h (PGuard v a) else h
   end.
 
 Definition run_from (h : heap) (ops : list op) : heap := fold_left step ops h.
@@ -290,7 +307,7 @@ Definition lazy_ok (i : nat) (p : producer) : Prop :=
   | PSlice _ _ _ => False
   | PNumbers _ => True
   | PConcat a b => a < i /\ b < i
-  | PMap _ a | PAccept _ a | PTop _ a | PSkip _ a => a < i
+  | PMap _ a | PAccept _ a | PTop _ a | PSkip _ a | PGuard _ a => a < i
   end.
 
 Definition obj_ok (arrs : arrays) (i : nat) (ob : lobj) : Prop :=
@@ -328,6 +345,7 @@ Definition pstep (ps : pstate) (o : op) : pstate :=
   | OForce _ _ => ps
   | OWindows n a => if have a then ps ++ windows_of n (get a) else ps
   | OMovWin a _ => if have a then ps ++ map (sub_list (get a)) (mw_bounds (get a) (get a) 0 0) else ps
+  | OGuard v a => if have a then ps ++ [map (guard_elem v) (get a)] else ps
   end.
 
 Definition prun (ops : list op) : pstate := fold_left pstep ops [].
